@@ -320,6 +320,8 @@ def generate(model: Model):
     try:
         mod, tree = _fresh("_reductions")
         for cdef in (x for x in tree.body if isinstance(x, ast.ClassDef) and x.name == "ShuffleReduce"):
+            for st in (x for x in ast.walk(cdef) if isinstance(x, ast.If) and ast.unparse(x.test) == "column == '__series__'"):
+                yield "mutant", "revert:series-placeholder-leaks", "R07e", mod.rel, _drop_stmt(mod, st)
             for c_ in (x for x in ast.walk(cdef) if isinstance(x, ast.Call) and isinstance(x.func, ast.Name) and x.func.id == "_get_shuffle_preferring_order"):
                 yield "mutant", "revert:shuffle-reduce-default-disk", "R10j", mod.rel, _splice(mod.source, c_, "self.shuffle_method")
     except Exception:  # noqa: BLE001
